@@ -5,11 +5,30 @@ package main
 // it on a channel) while newer state lands for the same key; then the gate is
 // released. The stale refresh must not overwrite the newer state.
 //
-//	variant 0  purge + client re-query (a newer generation is admitted)
-//	variant 1  purge only (the key is withdrawn: the refresh must not resurrect it)
-//	variant 2  a client-path write lands directly (Store.SetFromResponseWithKey)
-//	variant 3  control: nothing intervenes — the refresh must be applied, which
-//	           shows the scenario really exercises a write-back
+// Two dimensions are crossed (gatePlans):
+//
+// what lands while the refresh is parked (Variant)
+//
+//	0  purge + client re-query (a newer generation is admitted)
+//	1  purge only (the key is withdrawn: the refresh must not resurrect it)
+//	2  a client-path write lands directly (Store.SetFromResponseWithKey)
+//	3  control: nothing intervenes — with a live claim the refresh must be
+//	   applied, which shows the scenario really exercises a write-back
+//	4  a client query alone: the claimed entry has run out, so the query
+//	   misses, re-resolves and admits a newer generation (no purge)
+//	5  a withdrawal lands directly (NXDOMAIN through SetFromResponseWithKey)
+//	6  a client re-query that upstream now answers NXDOMAIN
+//
+// what happens to the CLAIMED entry while the refresh is parked (Fate)
+//
+//	live    it still has lifetime left when the refresh completes
+//	ttl     its TTL runs out in flight (the clock steps while the one refresh
+//	        sits inside the stub: no cache code is running)
+//	lease   its delegation lease (BoundCutFor) runs out in flight, TTL left
+//
+// The property does not condition the no-overwrite clause on the state of the
+// entry the refresh set out to replace: whatever was stored for the key after
+// the refresh started must still be there when it completes.
 
 import (
 	"context"
@@ -27,7 +46,36 @@ type gateCase struct {
 	Mode    string `json:"mode"`
 	Index   int    `json:"index"`
 	Variant int    `json:"variant"`
+	Fate    string `json:"fate,omitempty"`
 }
+
+const (
+	fateLive  = "live"
+	fateTTL   = "ttl"
+	fateLease = "lease"
+)
+
+type gatePlan struct {
+	Variant int
+	Fate    string
+}
+
+// gatePlans is the cross product the scenario index walks through. Variant 4
+// needs an expired claim (a live entry would simply be hit); "purge only" is
+// judged with a live claim only (with an expired claim and an empty slot there
+// is no newer data the statement protects).
+var gatePlans = func() []gatePlan {
+	var out []gatePlan
+	for _, v := range []int{0, 1, 2, 3, 5, 6} {
+		out = append(out, gatePlan{v, fateLive})
+	}
+	for _, f := range []string{fateTTL, fateLease} {
+		for _, v := range []int{0, 2, 3, 4, 5, 6} {
+			out = append(out, gatePlan{v, f})
+		}
+	}
+	return out
+}()
 
 func replyGen(m *dns.Msg) uint32 {
 	if m == nil {
@@ -41,17 +89,35 @@ func replyGen(m *dns.Msg) uint32 {
 	return 0
 }
 
+func gateNXDomain(name string, serial uint32) *dns.Msg {
+	m := new(dns.Msg)
+	m.Rcode = dns.RcodeNameError
+	m.Ns = []dns.RR{&dns.SOA{Hdr: dns.RR_Header{Name: "c04.test.", Rrtype: dns.TypeSOA, Class: dns.ClassINET, Ttl: 30},
+		Ns: "ns.c04.test.", Mbox: "h.c04.test.", Serial: serial, Refresh: 7200, Retry: 900, Expire: 86400, Minttl: 30}}
+	return m
+}
+
 func runGateScenario(r *vlib.Run, idx int) {
 	rng := r.RandN("gate", idx)
-	variant := idx % 4
+	plan := gatePlans[idx%len(gatePlans)]
+	variant, fate := plan.Variant, plan.Fate
 	name := fmt.Sprintf("hot-%d.c04.test.", idx)
 	q := dns.Question{Name: name, Qtype: dns.TypeA, Qclass: dns.ClassINET}
+
+	// first admission: plain TTL, or a long TTL under a short delegation lease
+	ttl1 := uint32(20)
+	var lease time.Duration
+	if fate == fateLease {
+		ttl1 = uint32(60 + rng.IntN(240))
+		lease = time.Duration(8+rng.IntN(7)) * time.Second
+	}
 
 	var mu sync.Mutex
 	gen := uint32(0)
 	var staleGen uint32
 	var refreshErr error
 	refreshDone := false
+	withdrawn := false // upstream answers NXDOMAIN to client queries from now on
 	gate := make(chan struct{})
 	entered := make(chan struct{}, 4)
 
@@ -62,9 +128,19 @@ func runGateScenario(r *vlib.Run, idx int) {
 		defer mu.Unlock()
 		gen++
 		g := gen
+		if withdrawn && !req.Internal {
+			return &stack.StubReply{Msg: gateNXDomain(req.Q.Name, g)}
+		}
 		m := new(dns.Msg)
-		m.Answer = []dns.RR{stack.MarkerRR(g, req.Q.Name, dns.TypeA, 20)}
 		rep := &stack.StubReply{Msg: m}
+		if g == 1 {
+			m.Answer = []dns.RR{stack.MarkerRR(g, req.Q.Name, dns.TypeA, ttl1)}
+			if lease > 0 {
+				rep.CutUntil, rep.CutKey = time.Now().Add(lease), 0xC04
+			}
+			return rep
+		}
+		m.Answer = []dns.RR{stack.MarkerRR(g, req.Q.Name, dns.TypeA, 20)}
 		if req.Internal && staleGen == 0 {
 			staleGen = g
 			rep.Gate = gate
@@ -98,6 +174,7 @@ func runGateScenario(r *vlib.Run, idx int) {
 		return st.ServeMsg("203.0.113.7:5300", "udp", m).Msg
 	}
 	store := st.Cache().VerifStore()
+	key := cache.CacheKey{Question: q}.Hash()
 	lookup := func() (*cache.CacheEntry, bool) {
 		req := new(dns.Msg)
 		req.Question = []dns.Question{q}
@@ -114,7 +191,17 @@ func runGateScenario(r *vlib.Run, idx int) {
 		r.Inconclusive(fmt.Sprintf("gate %d: no quiescent point", idx))
 		return
 	}
-	st.Cache().VerifAdvance(time.Duration(11+rng.IntN(5)) * time.Second)
+	// bring the entry to its refresh threshold; left = lifetime it then has
+	var left time.Duration
+	if fate == fateLease {
+		pre := time.Duration(rng.IntN(4)) * time.Second
+		st.Cache().VerifAdvance(pre)
+		left = lease - pre
+	} else {
+		pre := time.Duration(11+rng.IntN(5)) * time.Second
+		st.Cache().VerifAdvance(pre)
+		left = time.Duration(ttl1)*time.Second - pre
+	}
 	if g := replyGen(ask()); g != g1 {
 		r.Count("gate_unexpected_second_reply", 1)
 		return
@@ -128,7 +215,12 @@ func runGateScenario(r *vlib.Run, idx int) {
 	if rng.IntN(2) == 0 {
 		time.Sleep(time.Duration(rng.IntN(300)) * time.Microsecond)
 	}
+	if fate != fateLive {
+		// the claimed entry runs out while its refresh is parked in the stub
+		st.Cache().VerifAdvance(left + time.Second + time.Duration(rng.IntN(20000))*time.Millisecond)
+	}
 	var newer uint32
+	newerNXD := false
 	switch variant {
 	case 0:
 		st.Cache().Purge(q)
@@ -144,10 +236,50 @@ func runGateScenario(r *vlib.Run, idx int) {
 		m.Question = []dns.Question{q}
 		m.Response, m.RecursionDesired, m.RecursionAvailable = true, true, true
 		m.Answer = []dns.RR{stack.MarkerRR(newer, name, dns.TypeA, 20)}
-		store.SetFromResponseWithKey(cache.CacheKey{Question: q}.Hash(), m, time.Time{}, 0)
+		store.SetFromResponseWithKey(key, m, time.Time{}, 0)
+	case 4:
+		newer = replyGen(ask())
+		if newer == 0 || newer == g1 {
+			r.Count("gate_vacuous_no_client_miss", 1)
+			return
+		}
+	case 5:
+		mu.Lock()
+		gen++
+		serial := gen
+		mu.Unlock()
+		m := gateNXDomain(name, serial)
+		m.Question = []dns.Question{q}
+		m.Response, m.RecursionDesired, m.RecursionAvailable = true, true, true
+		store.SetFromResponseWithKey(key, m, time.Time{}, 0)
+		newerNXD = true
+	case 6:
+		mu.Lock()
+		withdrawn = true
+		mu.Unlock()
+		if fate == fateLive {
+			st.Cache().Purge(q)
+		}
+		if m := ask(); m == nil || m.Rcode != dns.RcodeNameError {
+			r.Count("gate_vacuous_no_withdrawal_reply", 1)
+			return
+		}
+		newerNXD = true
+	}
+	if newerNXD {
+		// the withdrawal must be what the store holds before the refresh returns
+		if e, ok := lookup(); !ok || e == e1 {
+			r.Count("gate_vacuous_withdrawal_not_stored", 1)
+			return
+		}
 	}
 	if rng.IntN(2) == 0 {
 		time.Sleep(time.Duration(rng.IntN(300)) * time.Microsecond)
+	}
+	// the fate the plan asked for must be what the claimed entry shows now
+	if e1.IsExpired() != (fate != fateLive) {
+		r.Count("gate_vacuous_claim_fate_not_reached", 1)
+		return
 	}
 	release()
 	deadline := time.Now().Add(6 * time.Second)
@@ -168,33 +300,63 @@ func runGateScenario(r *vlib.Run, idx int) {
 	r.Eval(1)
 	r.Count("gate_scenarios", 1)
 	r.Count(fmt.Sprintf("gate_scenarios_variant%d", variant), 1)
+	r.Count("gate_scenarios_claim_"+fate, 1)
 	var stored uint32
 	if e, ok := lookup(); ok {
 		stored = entryGenA(e, q)
 	}
-	served := replyGen(ask())
-	gc := gateCase{Mode: "gate", Index: idx, Variant: variant}
-	switch variant {
-	case 3:
+	final := ask()
+	served := replyGen(final)
+	gc := gateCase{Mode: "gate", Index: idx, Variant: variant, Fate: fate}
+	if idx < len(gatePlans) {
+		r.Sample(map[string]any{"gate_scenario": gc, "first_generation": g1, "refresh_generation": stale, "newer_generation": newer,
+			"newer_is_withdrawal": newerNXD, "stored_after": stored, "served_after": served})
+	}
+	switch {
+	case variant == 3 && fate == fateLive:
 		if stored == stale && served == stale {
 			r.Count("gate_control_refresh_applied", 1)
 		} else {
 			r.Count("gate_control_refresh_not_applied", 1)
 		}
+	case variant == 3:
+		// nothing newer landed and the claim ran out: applying the refresh or
+		// dropping it are both within the statement
+		if stored == stale {
+			r.Count("gate_expired_control_refresh_applied", 1)
+		} else {
+			r.Count("gate_expired_control_refresh_dropped", 1)
+		}
 	default:
 		if stored == stale || served == stale {
-			r.Violation(vlib.Sig("C04", "late-refresh", "stale-refresh-overwrote-newer", fmt.Sprintf("variant%d", variant)),
-				fmt.Sprintf("background refresh (generation %d) started on generation %d and completed after newer state landed for the key (variant %d, newer generation %d), yet the store holds generation %d and the next reply served generation %d",
-					stale, g1, variant, newer, stored, served), gc)
+			sig := vlib.Sig("C04", "late-refresh", "stale-refresh-overwrote-newer", fmt.Sprintf("variant%d", variant))
+			what := "still live"
+			if fate != fateLive {
+				sig = vlib.Sig(sig, "claim-expired-"+fate)
+				what = "expired in flight (" + fate + ")"
+			}
+			r.Violation(sig,
+				fmt.Sprintf("background refresh (generation %d) started on generation %d and completed after newer state landed for the key (variant %d, newer generation %d, withdrawal=%v; the claimed entry was %s), yet the store holds generation %d and the next reply served generation %d",
+					stale, g1, variant, newer, newerNXD, what, stored, served), gc)
 			return
 		}
-		if variant != 1 && served == newer {
+		switch {
+		case newerNXD:
+			if final != nil && final.Rcode == dns.RcodeNameError {
+				r.Count("gate_newer_withdrawal_survived", 1)
+			}
+		case variant == 1:
+			if stored == 0 {
+				r.Count("gate_withdrawal_survived", 1)
+			}
+		case served == newer:
 			r.Count("gate_newer_data_survived", 1)
 		}
-		if variant == 1 && stored == 0 {
-			r.Count("gate_withdrawal_survived", 1)
+		if fate != fateLive {
+			r.Count("gate_expired_claim_judged", 1)
+			r.Count("gate_expired_claim_judged_"+fate, 1)
 		}
-		r.Distinct(fmt.Sprintf("gate-v%d", variant))
+		r.Distinct(fmt.Sprintf("gate-v%d-%s", variant, fate))
 	}
 }
 
